@@ -10,6 +10,8 @@
 //!   drain_bytes <k>       consumer().advance_slices(k)
 //!   drain_read <k>        consumer().read(&mut [0; k])
 //!   finish
+//!   zenc b|c <n>  / zdec b|c <n>    one call on a piece of `n` zero bytes, `n` up to > 2^32
+//!                                   (right after `params`; ends the run; see `zeros.rs`)
 //! After executing `enc`/`dec`/a drain the executor prints, besides the `O`
 //! line, the line `I seen <bytes drained> <bytes in stable_prefix()>`: slice
 //! boundaries are structural, so the abstract model cannot predict these two
@@ -27,6 +29,7 @@
 mod gen;
 mod real;
 mod refcodec;
+mod zeros;
 
 use crate::util::*;
 use real::*;
@@ -303,6 +306,18 @@ impl Exec for EncExec {
                 so.tags.push(format!("enc_{}{}", kind, if d.is_empty() { "_nothing" } else { "" }));
                 so
             }
+            ["zenc", m @ ("b" | "c"), n] => {
+                let Ok(n) = n.parse::<usize>() else { return StepOut::bad() };
+                // only on a fresh encoder
+                match self.run.as_ref() {
+                    Some(r) if r.ops == 0 && r.snaps.is_empty() => {}
+                    _ => return StepOut::bad(),
+                }
+                let run = self.run.take().unwrap();
+                let so = zeros::zenc(run.enc, run.l, &mut self.bufs, m, n);
+                self.bufs.clear();
+                so
+            }
             ["finish"] => {
                 let Some(run) = self.run.take() else { return StepOut::bad() };
                 let EncRun { enc, l, payload, mut drained, snaps, ops } = run;
@@ -348,6 +363,9 @@ impl Exec for EncExec {
             }
             _ => StepOut::bad(),
         }
+    }
+    fn flush_before(&self, w: &[&str]) -> bool {
+        matches!(w, ["zenc", ..])
     }
 }
 
@@ -492,6 +510,18 @@ impl Exec for DecExec {
                 so.tags.push(format!("dec_{}{}", kind, if d.is_empty() { "_nothing" } else { "" }));
                 so
             }
+            ["zdec", m @ ("b" | "c"), n] => {
+                let Ok(n) = n.parse::<usize>() else { return StepOut::bad() };
+                // only on a fresh decoder
+                match self.run.as_ref() {
+                    Some(r) if r.input.is_empty() && r.snaps.is_empty() => {}
+                    _ => return StepOut::bad(),
+                }
+                let run = self.run.take().unwrap();
+                let so = zeros::zdec(run.dec, run.l, &mut self.bufs, m, n);
+                self.bufs.clear();
+                so
+            }
             ["finish"] => {
                 let Some(run) = self.run.take() else { return StepOut::bad() };
                 let DecRun { mut dec, l, input, drained, snaps } = run;
@@ -535,6 +565,9 @@ impl Exec for DecExec {
             }
             _ => StepOut::bad(),
         }
+    }
+    fn flush_before(&self, w: &[&str]) -> bool {
+        matches!(w, ["zdec", ..])
     }
 }
 
